@@ -585,6 +585,11 @@ var c09LoopTable = []c09LoopRow{
 	{fn: "pkg/consensus/sync.(*fastSyncer).deleteTillCommonBlock", exits: ".Header.Height", reason: "as blockSyncer.deleteTillCommonBlock"},
 	{fn: "pkg/rpc.(*wsSocket).read", exits: "ReadMessage", reason: "per-connection service loop of the websocket server: every iteration blocks in conn.ReadMessage and the loop ends when the connection fails or is closed; a client that keeps sending requests is served, which is the purpose"},
 	{fn: "pkg/codec.(*Reader).ReadBytesArray", exits: "p0.index < p0.end", reason: "every iteration either leaves (key mismatch, error) or reads one key and one length-prefixed value: r.index grows by at least one byte and is bounded by r.end"},
+	{fn: "pkg/codec.(*Reader).ReadUInts", exits: "p0.index < (p0.index + ", reason: "every iteration returns on the first failed read or reads one varint: readUInt advances r.index by the size of the varint (>= 1 byte) and fails once r.index reaches len(r.data) (F3), so the loop runs at most len(r.data) times whatever the announced packed length is (the announced length only sets the upper end)"},
+	{fn: "pkg/codec.(*Reader).ReadUInt32s", exits: "p0.index < (p0.index + ", reason: "every iteration returns on the first failed read or reads one varint: readUInt advances r.index by the size of the varint (>= 1 byte) and fails once r.index reaches len(r.data) (F3), so the loop runs at most len(r.data) times whatever the announced packed length is (the announced length only sets the upper end)"},
+	{fn: "pkg/codec.(*Reader).ReadInts", exits: "p0.index < (p0.index + ", reason: "every iteration returns on the first failed read or reads one varint: readUInt advances r.index by the size of the varint (>= 1 byte) and fails once r.index reaches len(r.data) (F3), so the loop runs at most len(r.data) times whatever the announced packed length is (the announced length only sets the upper end)"},
+	{fn: "pkg/codec.(*Reader).ReadBools", exits: "p0.index < (p0.index + ", reason: "every iteration returns on the first failed read or reads one byte: readBool advances r.index by one and fails once r.index reaches len(r.data) (F3), so the loop runs at most len(r.data) times whatever the announced packed length is (the announced length only sets the upper end)"},
+	{fn: "pkg/codec.(*Reader).ReadStrings", exits: "p0.index < p0.end", reason: "as ReadBytesArray: each iteration consumes at least the key byte or leaves"},
 	{fn: "pkg/codec.(*Reader).ReadDecodables", exits: "p0.index < p0.end", reason: "as ReadBytesArray: each iteration consumes at least the key byte or leaves"},
 	{fn: "pkg/codec.convertUIntArray", exits: ">= p2", reason: "the inner loop subtracts toBits (> 0: the callers pass the constants 5 and 8) from the bit count until it is below toBits"},
 	{fn: "pkg/collection.BinarySearch[", exits: ">> 1", reason: "binary search: the interval [lo, hi) halves every iteration (lo = mid+1 or hi = mid)"},
